@@ -302,8 +302,15 @@ def mps_text(m, rnd):
     inint = False
     mk = 0
     marked_cols = {}
+    # SOS sets (marker form) around runs of continuous columns: no effect on the LP, but the reader and writer carry them
+    use_sos = rnd.random() < 0.12
+    sos_left = 0
+    sos_name = None
     for c in m.cols:
         use_marker = bool(c.isint) and (rnd.random() < 0.6 or (c.lo == NINF and c.up == INF))
+        if sos_left and (use_marker or c.isint):
+            out.append(" %s%s'MARKER'%s'SOSEND'" % (sos_name, sp(), sp()))
+            sos_left = 0
         if use_marker and not inint:
             mk += 1
             out.append(" MARKER%d%s'MARKER'%s'INTORG'" % (mk, sp(), sp()))
@@ -313,6 +320,11 @@ def mps_text(m, rnd):
             out.append(" MARKER%d%s'MARKER'%s'INTEND'" % (mk, sp(), sp()))
             inint = False
         marked_cols[c] = use_marker
+        if use_sos and not sos_left and not inint and not c.isint and rnd.random() < 0.4:
+            mk += 1
+            sos_name = "SS%d" % mk
+            out.append(" %s%s%s%s'MARKER'%s'SOSORG'" % (rnd.choice(["S1", "S2"]), sp(), sos_name, sp(), sp()))
+            sos_left = rnd.randint(1, 3) + 1
         ents = []
         if c.obj != 0:
             ents.append((objn, c.obj))
@@ -330,6 +342,12 @@ def mps_text(m, rnd):
                 i += 1
             i += 1
             out.append(ln)
+        if sos_left:
+            sos_left -= 1
+            if not sos_left:
+                out.append(" %s%s'MARKER'%s'SOSEND'" % (sos_name, sp(), sp()))
+    if sos_left:
+        out.append(" %s%s'MARKER'%s'SOSEND'" % (sos_name, sp(), sp()))
     if inint:
         mk += 1
         out.append(" MARKER%d%s'MARKER'%s'INTEND'" % (mk, sp(), sp()))
